@@ -206,12 +206,13 @@ PROPS = {
         "assumptions": ["Gibbs: the user's conditional is deterministic given its state"],
     },
     "C08": {
-        "obligations": [SD + n for n in ["proposalSeed_eq", "mh_chain_streams_distinct", "mh_accept_ne_proposal", "nuts_chain_seeds_distinct", "seedFromU64_injective"]]
+        "obligations": [SD + n for n in ["proposalSeed_eq", "mh_chain_streams_distinct", "mh_accept_ne_proposal", "nuts_chain_seeds_distinct", "seedFromU64_injective",
+                                         "rotl45_injective", "xsl_injective", "next_state_injective", "iter_injective", "nuts_chains_never_merge", "mh_streams_never_merge"]]
                        + ["MiniMcmcVerif.Init.hmc_rows_disjoint_segments"],
         "disagreement_is_failing_input": False,
         "correspondence_name": "seeding correspondence: per-chain acceptance/proposal generator words vs. the Lean model",
         "level_text": "Theorems: after MetropolisHastings::seed(s), for up to 2^63 chains and every s the 2n generators (acceptance s+i+1, proposal s+i+1+2^63) are seeded pairwise differently — no two chains "
-                      "share a proposal or acceptance stream and within a chain the two never coincide; NUTS chain seeds s+i+1 are pairwise distinct; seed_from_u64 is injective so distinct seeds are distinct "
+                      "share a proposal or acceptance stream and within a chain the two never coincide; NUTS chain seeds s+i+1 are pairwise distinct; the xoshiro256++ state transition is injective (rotl 45, x^(x<<17) and the xor network are inverted explicitly), so generators seeded differently are in different states after any number of draws — streams never merge; seed_from_u64 is injective so distinct seeds are distinct "
                       "generator states; HMC's batch rows are disjoint segments of one stream. Tied to the code by comparing the real generators' output words with the model and, on the implementation alone, by "
                       "pairwise distinctness of generator states, next proposals from equal states and trajectories of 2-64 chains started from one common state, seeded and unseeded.",
         "level_note": "Assumption: unseeded construction relies on OS entropy (from_os_rng) giving distinct seeds. Gibbs is excluded by the property. A mismatch of the seeding model alone is reported as no-failing-input-found.",
